@@ -255,8 +255,183 @@ func genGlobals() (string, string) {
 		return "", "", false, 0
 	}
 
+	// ---- parameters a function stores through (element / field / deref store, delete/clear/copy into it), directly or by
+	// handing the parameter on to another function that does; index 0 = receiver, i+1 = i-th parameter name
+	paramObjs := func(fd *ast.FuncDecl) map[*ast.Object]int {
+		m := map[*ast.Object]int{}
+		if fd.Recv != nil {
+			for _, fl := range fd.Recv.List {
+				for _, n := range fl.Names {
+					if n.Obj != nil {
+						m[n.Obj] = 0
+					}
+				}
+			}
+		}
+		i := 1
+		for _, fl := range fd.Type.Params.List {
+			if len(fl.Names) == 0 {
+				i++
+			}
+			for _, n := range fl.Names {
+				if n.Obj != nil {
+					m[n.Obj] = i
+				}
+				i++
+			}
+		}
+		return m
+	}
+	// callees of a call expression (over-approximation by name for methods); recvArg = the receiver expression if a method call
+	calleesOf := func(pk *gPkg, f *ast.File, c *ast.CallExpr) (nodes []string, recv ast.Expr) {
+		switch fn := c.Fun.(type) {
+		case *ast.Ident:
+			if fn.Obj == nil || fn.Obj.Kind == ast.Fun {
+				if _, ok := pk.funcs[fn.Name]; ok {
+					nodes = append(nodes, pk.dir+":"+fn.Name)
+				}
+			}
+		case *ast.SelectorExpr:
+			if xi, ok := fn.X.(*ast.Ident); ok && xi.Obj == nil {
+				if dir, ok := pk.imports[f][xi.Name]; ok {
+					if other := byDir[dir]; other != nil {
+						if _, ok := other.funcs[fn.Sel.Name]; ok {
+							nodes = append(nodes, dir+":"+fn.Sel.Name)
+						}
+					}
+					return nodes, nil
+				}
+			}
+			nodes = append(nodes, methodsByName[fn.Sel.Name]...)
+			recv = fn.X
+		}
+		return
+	}
+	stdMutators := map[string]bool{"sort.Strings": true, "sort.Ints": true, "sort.Slice": true, "sort.SliceStable": true, "sort.Sort": true, "sort.Stable": true,
+		"slices.Sort": true, "slices.SortFunc": true, "slices.SortStableFunc": true, "slices.Reverse": true, "maps.Copy": true, "maps.DeleteFunc": true}
+	stripAddr := func(e ast.Expr) ast.Expr {
+		for {
+			switch x := e.(type) {
+			case *ast.UnaryExpr:
+				if x.Op == token.AND {
+					e = x.X
+					continue
+				}
+			case *ast.ParenExpr:
+				e = x.X
+				continue
+			}
+			return e
+		}
+	}
+	mutParams := map[string]map[int]bool{}
+	setMut := func(node string, i int) bool {
+		if mutParams[node] == nil {
+			mutParams[node] = map[int]bool{}
+		}
+		if mutParams[node][i] {
+			return false
+		}
+		mutParams[node][i] = true
+		return true
+	}
+	type fnInfo struct {
+		pk *gPkg
+		f  *ast.File
+		fd *ast.FuncDecl
+	}
+	var allFuncs []fnInfo
+	for _, pk := range pkgs {
+		for _, f := range pk.files {
+			for _, d := range f.Decls {
+				if fd, ok := d.(*ast.FuncDecl); ok && fd.Body != nil {
+					allFuncs = append(allFuncs, fnInfo{pk, f, fd})
+				}
+			}
+		}
+	}
+	for _, fi := range allFuncs { // direct stores
+		node := fi.pk.dir + ":" + funcKey(fi.fd)
+		po := paramObjs(fi.fd)
+		store := func(lhs ast.Expr) {
+			if id, sel, indexed, layers := c19RootIdent(lhs); id != nil && sel == nil && id.Obj != nil && (indexed || layers > 0) {
+				if i, ok := po[id.Obj]; ok {
+					setMut(node, i)
+				}
+			}
+		}
+		ast.Inspect(fi.fd.Body, func(n ast.Node) bool {
+			switch x := n.(type) {
+			case *ast.AssignStmt:
+				if x.Tok != token.DEFINE {
+					for _, l := range x.Lhs {
+						store(l)
+					}
+				}
+			case *ast.IncDecStmt:
+				store(x.X)
+			case *ast.CallExpr:
+				if id, ok := x.Fun.(*ast.Ident); ok && id.Obj == nil && len(x.Args) > 0 && (id.Name == "delete" || id.Name == "clear" || id.Name == "copy") {
+					if rid, sel, _, _ := c19RootIdent(x.Args[0]); rid != nil && sel == nil && rid.Obj != nil {
+						if i, ok := po[rid.Obj]; ok {
+							setMut(node, i)
+						}
+					}
+				}
+				if stdMutators[src(x.Fun)] && len(x.Args) > 0 {
+					if rid, sel, _, _ := c19RootIdent(stripAddr(x.Args[0])); rid != nil && sel == nil && rid.Obj != nil {
+						if i, ok := po[rid.Obj]; ok {
+							setMut(node, i)
+						}
+					}
+				}
+			}
+			return true
+		})
+	}
+	for changed := true; changed; { // handed on to a mutating callee
+		changed = false
+		for _, fi := range allFuncs {
+			node := fi.pk.dir + ":" + funcKey(fi.fd)
+			po := paramObjs(fi.fd)
+			ast.Inspect(fi.fd.Body, func(n ast.Node) bool {
+				c, ok := n.(*ast.CallExpr)
+				if !ok {
+					return true
+				}
+				callees, recv := calleesOf(fi.pk, fi.f, c)
+				for _, callee := range callees {
+					check := func(arg ast.Expr, idx int) {
+						if !mutParams[callee][idx] {
+							return
+						}
+						if rid, sel, _, _ := c19RootIdent(stripAddr(arg)); rid != nil && sel == nil && rid.Obj != nil {
+							if i, ok := po[rid.Obj]; ok && setMut(node, i) {
+								changed = true
+							}
+						}
+					}
+					if recv != nil {
+						check(recv, 0)
+					}
+					for ai, arg := range c.Args {
+						check(arg, ai+1)
+					}
+				}
+				return true
+			})
+		}
+	}
+
 	var writes []gWrite
 	var callerWrites []gCallerWrite
+	type gAccess struct {
+		pkg, name, fn string
+		guarded, init bool
+	}
+	var accesses []gAccess
+	type gReturn struct{ pkg, name, fn string }
+	var returns []gReturn
 	edges := map[string]map[string]bool{}
 	addEdge := func(from, to string) {
 		if edges[from] == nil {
@@ -337,7 +512,67 @@ func genGlobals() (string, string) {
 						}
 					}
 				}
+				// local names bound to (part of) a package-level variable: x := G, x := G[k], x := &G, for _, x := range G
+				alias := map[*ast.Object][2]string{}
+				bindAlias := func(lhs ast.Expr, rhs ast.Expr) {
+					id, ok := lhs.(*ast.Ident)
+					if !ok || id.Obj == nil || id.Name == "_" {
+						return
+					}
+					r := stripAddr(rhs)
+					if dir, name, _, _ := globalOf(pk, f, r); name != "" {
+						alias[id.Obj] = [2]string{dir, name}
+						return
+					}
+					if rid, sel, _, _ := c19RootIdent(r); rid != nil && sel == nil && rid.Obj != nil {
+						if a, ok := alias[rid.Obj]; ok {
+							alias[id.Obj] = a
+						}
+					}
+				}
+				ast.Inspect(fd.Body, func(n ast.Node) bool {
+					switch x := n.(type) {
+					case *ast.AssignStmt:
+						if len(x.Lhs) == len(x.Rhs) {
+							for i := range x.Lhs {
+								bindAlias(x.Lhs[i], x.Rhs[i])
+							}
+						} else if len(x.Rhs) == 1 && len(x.Lhs) == 2 { // v, ok := G[k]
+							bindAlias(x.Lhs[0], x.Rhs[0])
+						}
+					case *ast.RangeStmt:
+						if x.Value != nil {
+							bindAlias(x.Value, x.X)
+						}
+					case *ast.ValueSpec:
+						if len(x.Names) == len(x.Values) {
+							for i := range x.Names {
+								bindAlias(x.Names[i], x.Values[i])
+							}
+						}
+					}
+					return true
+				})
+				// (dir, var) an expression is rooted at, through a local alias or directly
+				targetOf := func(e ast.Expr) (string, string, bool) {
+					e = stripAddr(e)
+					if dir, name, _, _ := globalOf(pk, f, e); name != "" {
+						return dir, name, false
+					}
+					if rid, sel, _, _ := c19RootIdent(e); rid != nil && sel == nil && rid.Obj != nil {
+						if a, ok := alias[rid.Obj]; ok {
+							return a[0], a[1], true
+						}
+					}
+					return "", "", false
+				}
+				skipIdent := map[*ast.Ident]bool{}
 				record := func(lhs ast.Expr, kind string, pos token.Pos) {
+					if rid, sel, indexed, layers := c19RootIdent(lhs); rid != nil && sel == nil && rid.Obj != nil && (indexed || layers > 0) {
+						if a, ok := alias[rid.Obj]; ok {
+							writes = append(writes, gWrite{pkg: a[0], name: a[1], writer: writer, kind: "alias-" + kind, inInit: isInit, guarded: guardedAt(pos)})
+						}
+					}
 					if dir, name, indexed, layers := globalOf(pk, f, lhs); name != "" {
 						k := kind
 						if indexed {
@@ -378,13 +613,52 @@ func genGlobals() (string, string) {
 								record(x.Value, "assign", x.Pos())
 							}
 						}
+					case *ast.ReturnStmt:
+						for _, r := range x.Results {
+							if _, isAddr := r.(*ast.UnaryExpr); isAddr || true {
+								if dir, name, viaAlias := targetOf(r); name != "" {
+									// only the variable itself / an alias of it / its address / a part of it: a copy of a scalar is harmless,
+									// which the syntax cannot tell – the reviewed list does
+									_ = viaAlias
+									returns = append(returns, gReturn{byDir[dir].name, name, writer})
+								}
+							}
+						}
 					case *ast.CallExpr:
+						// a package-level variable (or an alias of it) handed to a function that stores through that parameter
+						if callees, recv := calleesOf(pk, f, x); len(callees) > 0 {
+							for _, callee := range callees {
+								via := func(arg ast.Expr, idx int) {
+									if !mutParams[callee][idx] {
+										return
+									}
+									if dir, name, _ := targetOf(arg); name != "" {
+										writes = append(writes, gWrite{pkg: dir, name: name, writer: writer, kind: "via-call:" + strings.Replace(callee, ":", ".", 1), inInit: isInit, guarded: guardedAt(x.Pos())})
+									}
+								}
+								if recv != nil {
+									via(recv, 0)
+								}
+								for ai, arg := range x.Args {
+									via(arg, ai+1)
+								}
+							}
+						}
+						if stdMutators[src(x.Fun)] && len(x.Args) > 0 {
+							if dir, name, _ := targetOf(x.Args[0]); name != "" {
+								writes = append(writes, gWrite{pkg: dir, name: name, writer: writer, kind: "via-call:" + src(x.Fun), inInit: isInit, guarded: guardedAt(x.Pos())})
+							}
+						}
 						if id, ok := x.Fun.(*ast.Ident); ok && id.Obj == nil && len(x.Args) > 0 {
 							switch id.Name {
 							case "delete", "clear", "copy":
 								// builtin mutation of its first argument
-								if dir, name, _, _ := globalOf(pk, f, x.Args[0]); name != "" {
-									writes = append(writes, gWrite{pkg: dir, name: name, writer: writer, kind: id.Name, inInit: isInit, guarded: guardedAt(x.Pos())})
+								if dir, name, viaAlias := targetOf(x.Args[0]); name != "" {
+									k := id.Name
+									if viaAlias {
+										k = "alias-" + k
+									}
+									writes = append(writes, gWrite{pkg: dir, name: name, writer: writer, kind: k, inInit: isInit, guarded: guardedAt(x.Pos())})
 								}
 								if rid, sel, _, _ := c19RootIdent(x.Args[0]); rid != nil && sel == nil && rid.Obj != nil && id.Name != "copy" {
 									if pn, ok := cparams[rid.Obj]; ok {
@@ -394,6 +668,12 @@ func genGlobals() (string, string) {
 							}
 						}
 					case *ast.Ident:
+						// every reference to a package-level variable of this package is an access
+						if !skipIdent[x] {
+							if dir, name, _, _ := globalOf(pk, f, x); name != "" {
+								accesses = append(accesses, gAccess{byDir[dir].name, name, writer, guardedAt(x.Pos()), isInit})
+							}
+						}
 						// reference to a function of this package
 						if x.Obj == nil || x.Obj.Kind == ast.Fun {
 							if _, ok := pk.funcs[x.Name]; ok {
@@ -401,8 +681,15 @@ func genGlobals() (string, string) {
 							}
 						}
 					case *ast.SelectorExpr:
+						skipIdent[x.Sel] = true
 						if xi, ok := x.X.(*ast.Ident); ok && xi.Obj == nil {
 							if dir, ok := pk.imports[f][xi.Name]; ok {
+								skipIdent[xi] = true
+								if other := byDir[dir]; other != nil {
+									if _, isVar := other.vars[x.Sel.Name]; isVar {
+										accesses = append(accesses, gAccess{other.name, x.Sel.Name, writer, guardedAt(x.Pos()), isInit})
+									}
+								}
 								addEdge(self, dir+":"+x.Sel.Name)
 								return true
 							}
@@ -541,7 +828,67 @@ func genGlobals() (string, string) {
 		}
 		fmt.Fprintf(&b, "  (%s, %s, %s)", leanStr(w.fn), leanStr(w.param), leanStr(w.expr))
 	}
+	b.WriteString("]\n\n")
+	// accesses (reads included) of variables that have a lock-held write
+	guardedVar := map[string]bool{}
+	for _, w := range writes {
+		if w.guarded && !w.inInit {
+			guardedVar[w.pkg+"."+w.name] = true
+		}
+	}
+	type accRow struct{ pkg, name, fn string }
+	accSeen := map[accRow]bool{}
+	var unguardedAcc []accRow
+	nAcc := 0
+	for _, a := range accesses {
+		if !guardedVar[a.pkg+"."+a.name] || a.init {
+			continue
+		}
+		nAcc++
+		r := accRow{a.pkg, a.name, a.fn}
+		if !a.guarded && !accSeen[r] {
+			accSeen[r] = true
+			unguardedAcc = append(unguardedAcc, r)
+		}
+	}
+	sort.Slice(unguardedAcc, func(i, j int) bool {
+		return unguardedAcc[i].pkg+unguardedAcc[i].name+unguardedAcc[i].fn < unguardedAcc[j].pkg+unguardedAcc[j].name+unguardedAcc[j].fn
+	})
+	var gv []string
+	for k := range guardedVar {
+		gv = append(gv, k)
+	}
+	sort.Strings(gv)
+	fmt.Fprintf(&b, "/-- package-level variables that have a write under a held `Lock()` (outside `init`) -/\ndef lockGuardedVars : List String := [%s]\n\n", joinLean(gv))
+	fmt.Fprintf(&b, "/-- accesses (READS included) of those variables outside `init` at a point where no `Lock()` is held: (package, variable, function); %d accesses looked at -/\n", nAcc)
+	b.WriteString("def unguardedAccessesOfGuardedVars : List (String × String × String) := [\n")
+	for i, r := range unguardedAcc {
+		if i > 0 {
+			b.WriteString(",\n")
+		}
+		fmt.Fprintf(&b, "  (%s, %s, %s)", leanStr(r.pkg), leanStr(r.name), leanStr(r.fn))
+	}
+	b.WriteString("]\n\n")
+	// package-level variables (or parts / aliases / addresses of them) returned by a function: the caller can store through the result
+	retSeen := map[gReturn]bool{}
+	var rets []gReturn
+	for _, r := range returns {
+		if !retSeen[r] {
+			retSeen[r] = true
+			rets = append(rets, r)
+		}
+	}
+	sort.Slice(rets, func(i, j int) bool { return rets[i].pkg+rets[i].name+rets[i].fn < rets[j].pkg+rets[j].name+rets[j].fn })
+	b.WriteString("/-- functions that return (a part of / an alias of / the address of) a package-level variable: (package, variable, function) -/\n")
+	b.WriteString("def globalsReturned : List (String × String × String) := [\n")
+	for i, r := range rets {
+		if i > 0 {
+			b.WriteString(",\n")
+		}
+		fmt.Fprintf(&b, "  (%s, %s, %s)", leanStr(r.pkg), leanStr(r.name), leanStr(r.fn))
+	}
 	b.WriteString("]\n\nend CV.Gen\n")
+	fmt.Fprintf(logw, "globals: %d accesses of %d lock-guarded vars (%d unguarded), %d returns of globals, %d functions with mutated parameters\n", nAcc, len(gv), len(unguardedAcc), len(rets), len(mutParams))
 	fmt.Fprintf(logw, "globals: %d package vars, %d writes (%d outside init), %d caller-owned stores, %d reachable functions\n", nvars, len(writes), func() int {
 		c := 0
 		for _, w := range writes {
@@ -602,10 +949,42 @@ func fanoutOrderFact() (found bool, ok bool, nGo int) {
 	return
 }
 
+// c19TravLimitFact: the argument of every `eg.SetLimit(…)` in graph/traversal.go and the condition of the enclosing `if`
+// (the Lean model of the walk gives the errgroup `limit + 1` slots, one of them held by the coordinator).
+func c19TravLimitFact() (args []string, guards []string) {
+	f := parse("graph/traversal.go")
+	var stack []ast.Node
+	ast.Inspect(f, func(n ast.Node) bool {
+		if n == nil {
+			stack = stack[:len(stack)-1]
+			return true
+		}
+		stack = append(stack, n)
+		if c, ok := n.(*ast.CallExpr); ok {
+			if se, ok := c.Fun.(*ast.SelectorExpr); ok && se.Sel.Name == "SetLimit" && len(c.Args) == 1 {
+				args = append(args, src(c.Args[0]))
+				g := ""
+				for i := len(stack) - 1; i >= 0; i-- {
+					if is, ok := stack[i].(*ast.IfStmt); ok {
+						g = src(is.Cond)
+						break
+					}
+				}
+				guards = append(guards, g)
+			}
+		}
+		return true
+	})
+	return
+}
+
 func init() {
 	extraGenerators = append(extraGenerators, func() (string, string) {
 		name, content := genGlobals()
 		found, ok, nGo := fanoutOrderFact()
+		largs, lguards := c19TravLimitFact()
+		trav := fmt.Sprintf("\n/-- graph/traversal.go: arguments of `eg.SetLimit` and the conditions guarding the calls -/\ndef travSetLimitArgs : List String := [%s]\ndef travSetLimitGuards : List String := [%s]\n", joinLean(largs), joinLean(lguards))
+		content = strings.Replace(content, "\nend CV.Gen\n", trav+"\nend CV.Gen\n", 1)
 		extra := fmt.Sprintf("\n/-- `WithServicesTransform` exists, starts its goroutines with `eg.Go` (%d call sites), and the calling goroutine's own\n    accesses to `newProject.Services` all precede the first of them -/\ndef fanoutFieldReadPrecedesSpawn : Bool := %v\n\nend CV.Gen\n", nGo, found && ok && nGo == 2)
 		content = strings.Replace(content, "\nend CV.Gen\n", extra, 1)
 		return name, content
